@@ -11,7 +11,7 @@ RULE = ("operation sequences (<=200 ops, offsets 0..300) over two Spans objects 
         "held bytes; distinct by op list.")
 LEVEL_TEXT = "Random operation histories compared step by step against an obviously-correct reference (set of ints, dict offset->byte)."
 ASSUMPTIONS = ["lengths are >= 1 (the classes assert length > 0)"]
-REQUIRED_CLASSES = ["split", "merge", "overwrite", "exact-fill"]
+REQUIRED_CLASSES = ["aliased-operand", "split", "merge", "overwrite", "exact-fill"]
 BUDGET = {"quick": 600, "thorough": 3600}
 
 MAXO = 300
@@ -29,7 +29,7 @@ def _span():
 def span_ops():
     return st.lists(st.one_of(
         st.tuples(st.sampled_from(["add", "remove", "in", "badd", "bremove"]), _span()),
-        st.tuples(st.sampled_from(["plus", "minus", "and", "iadd", "isub", "copy", "swap", "new_b"]), st.lists(_span(), max_size=4)),
+        st.tuples(st.sampled_from(["plus", "minus", "and", "iadd", "isub", "copy", "swap", "new_b", "isub_self", "iadd_self", "and_self", "minus_self"]), st.lists(_span(), max_size=4)),
         st.tuples(st.sampled_from(["fill_gap", "in_run"]), st.tuples(st.integers(0, 50), st.just(1))),
     ), min_size=1, max_size=200)
 
@@ -152,6 +152,21 @@ def run_spans(case, ctx):
             elif op == "isub":
                 a -= b
                 ma -= mb
+            elif op == "isub_self":
+                # the operand is the object itself (a set minus itself is empty)
+                if ma:
+                    classes.add("aliased-operand")
+                a -= a
+                ma -= set(ma)
+            elif op == "iadd_self":
+                a += a
+                if ma:
+                    classes.add("aliased-operand")
+            elif op == "and_self":
+                a = a & a
+            elif op == "minus_self":
+                a = a - a
+                ma = set()
             elif op == "fill_gap":
                 runs = _run_list(ma)
                 if len(runs) >= 2:
